@@ -319,9 +319,11 @@ def r07f(run, S):
               construct="dependants loop does not recompute", message="the dependants loop never calls "
               "__coerce_property__")
     for n, kind, k, v in raw_stores(fa):
-        guard = [m for m in fa.cfg.nodes if m.kind == "test" and unparse(m.ast) == "field.dependants"]
-        tgt = guard[0] if guard else lp
-        reach = fa.cfg.reach_from_succ(n, kinds=(N,), avoid=[tgt])
+        # the loop itself must be reached; the only way round it is the arm in which the field has no dependants
+        FP = f.params[2] if len(f.params) > 2 else "field"
+        none = [b for b in fa.cfg.nodes if b.kind == "branch" and not b.is_for
+                and any(t_.endswith(".dependants") and t_.startswith(FP) and not p_ for t_, p_ in branch_atoms(b))]
+        reach = fa.cfg.reach_from_succ(n, kinds=(N,), avoid=[lp] + none)
         run.check("R07f", f, f"after `{norm_stmt(n.ast)[:50]}` the dependants recomputation is reached",
                   fa.cfg.exit not in reach, construct="store bypasses dependants recomputation",
                   message=f"`{norm_stmt(n.ast)}` can be followed by a return that skips the dependants loop",
@@ -501,14 +503,14 @@ def check(run):
                 "force_error, and the parse result is tested against the sentinel before it is stored; (R07f) the "
                 "dependants recomputation is reached after every store.")
     S = schema_class(run)
-    r07a(run, S)
+    run.rule(r07a, run, S)
     funcs = [S.methods[m] for m in S.methods] + setter_closures(run)
     funcs.append(run.repo.func("utype.parser.cls", "ClassParser.set_attributes"))
-    r07b(run, S, funcs)
-    r07c(run, S)
-    r07d(run, S)
-    r07e(run, S)
-    r07f(run, S)
-    r07g(run)
-    r07h(run, S)
-    r07i(run, S)
+    run.rule(r07b, run, S, funcs)
+    run.rule(r07c, run, S)
+    run.rule(r07d, run, S)
+    run.rule(r07e, run, S)
+    run.rule(r07f, run, S)
+    run.rule(r07g, run)
+    run.rule(r07h, run, S)
+    run.rule(r07i, run, S)
